@@ -88,7 +88,7 @@ func init() {
 					c.PanicIsViol = panicViol
 					c.MaxWallS = wall
 					if nmax < 0 && n <= 16 {
-						c.MaxWallS = wall * 3 // short bodies are cheap to finish and carry most header logic
+						c.MaxWallS = wall * 4 // short bodies are cheap to finish and carry most header logic
 					}
 					r = append(r, c)
 				}
@@ -236,6 +236,22 @@ func init() {
 						}
 						c := inst(mod+"/mp4", "VerifC04Box", append(append([]string{t, itoa(n)}, v...), lv)...)
 						c.MaxWallS = tierW(tier, 3, 20)
+						r = append(r, c)
+					}
+				}
+			}
+			// whole files with one untrusted leaf, every decode path / mode
+			for _, k := range []string{"init", "plain", "seg", "seg2f", "2seg", "sidx2", "nostyp", "emsg", "mfra"} {
+				for leaf := 0; leaf < 26; leaf++ {
+					for mode := 0; mode < 5; mode++ {
+						if tier != "thorough" && (leaf+mode)%5 != 0 && !(k == "seg" && mode < 2) {
+							continue
+						}
+						if (mode == 2 && k != "plain") || (mode >= 3 && (k == "init" || k == "plain")) {
+							continue
+						}
+						c := inst(mod+"/mp4", "VerifC04File", k, itoa(leaf), itoa(mode))
+						c.MaxWallS = tierW(tier, 8, 60)
 						r = append(r, c)
 					}
 				}
@@ -915,6 +931,35 @@ func init() {
 				c.MaxWallS = tierW(tier, 90, 900)
 				c.IfConvFuncs = map[string]bool{"(*" + mod + "/bits.EBSPReader).Read": true, mod + "/avc.ParseSliceHeader": true}
 			}
+			// extended AVC syntax: scaling matrices, full VUI with HRD
+			xs := []int{1, 1 + 1024, 2 + 4 + 16, 4 + 8 + 32, 64 + 256, 32 + 64 + 512, 1 + 2 + 4 + 8 + 16 + 32 + 64 + 256 + 512}
+			xc := []int{0, 1, 1001, 3}
+			if tier == "thorough" {
+				xs = append(xs, 1+2048, 1+1024+2048*3, 32, 64+512, 4+256, 1+32+2048*5)
+				xc = []int{0, 1, 1001, 2, 1002, 3, 1003, 5, 1007}
+			}
+			for _, sh := range xs {
+				for _, cl := range xc {
+					if tier != "thorough" && sh&1 == 1 && cl%100 >= 3 {
+						continue // 16 coded coefficients with longer codes: minutes per path
+					}
+					r = append(r, inst(p, "VerifC15SPSExt", itoa(sh), itoa(cl)))
+				}
+			}
+			for sh := 0; sh < 4; sh++ {
+				for _, cl := range xc {
+					r = append(r, inst(p, "VerifC15PPSExt", itoa(sh), itoa(cl)))
+					if tier == "thorough" {
+						r = append(r, inst(p, "VerifC15PPSExt", itoa(sh+4*3), itoa(cl)), inst(p, "VerifC15PPSExt", itoa(sh+4*7), itoa(cl)))
+					}
+				}
+			}
+			for _, c := range r {
+				if c.MaxWallS == 0 {
+					c.MaxWallS = tierW(tier, 90, 900)
+					c.IfConvFuncs = map[string]bool{"(*" + mod + "/bits.EBSPReader).Read": true}
+				}
+			}
 			hcl := []int{0, 1, 3, 8}
 			if tier == "thorough" {
 				hcl = []int{0, 1, 2, 3, 4, 5, 6, 7, 8, 101, 103}
@@ -923,7 +968,7 @@ func init() {
 			return r
 		},
 		Bounds: func(tier string) map[string]interface{} { return map[string]interface{}{} },
-		Covers: []string{"sps compared", "pps compared", "slice compared", "config compared", "hevc sps compared", "hevc pps compared", "hevc slice compared", "hevc config compared"}, RequireCovers: true,
+		Covers: []string{"sps compared", "pps compared", "slice compared", "config compared", "sps ext compared", "pps ext compared", "hevc sps compared", "hevc pps compared", "hevc slice compared", "hevc config compared"}, RequireCovers: true,
 	}
 	propDefs["C13"] = &PropDef{
 		ID:       "C13",
